@@ -76,3 +76,14 @@ cl2:
 done:
 	unreachable
 }
+
+define i32 @alloca_in_address_space(i32 %n) {
+entry:
+	%a = alloca i32, addrspace(5)
+	%b = alloca i64, i32 %n, align 8, addrspace(5)
+	store i32 %n, i32 addrspace(5)* %a
+	%v = load i32, i32 addrspace(5)* %a
+	%c = addrspacecast i64 addrspace(5)* %b to i64*
+	store i64 7, i64* %c
+	ret i32 %v
+}
